@@ -18,6 +18,10 @@ func init() {
 	// histx: indices from the extremes and just outside the range (C08)
 	streams["hist"] = &stream{gen: func(r *rand.Rand, id, tier string) string { return genHist(r, id, tier, false) }, run: runHist}
 	streams["histx"] = &stream{gen: func(r *rand.Rand, id, tier string) string { return genHist(r, id, tier, true) }, run: runHist}
+	streams["capx"] = &stream{gen: genCapx, run: runHist}
+	streams["nest"] = &stream{gen: genNest, run: runHist}
+	streams["pol"] = &stream{gen: genPol, run: runHist}
+	streams["xfer"] = &stream{gen: genXfer, run: runHist}
 }
 
 // genPos: an index that addresses an existing position of a stack of length n
@@ -200,8 +204,8 @@ func obsStack(s stackage.Stack) string {
 		}
 		fv, fok := s.Front()
 		bv, bok := s.Back()
-		return fmt.Sprintf("L%d [%s] F%s:%s B%s:%s E%s c%d a%d u%s", n, strings.Join(idx, " "), Short(fv), b01(fok), Short(bv), b01(bok),
-			b01(s.IsEmpty()), s.Cap(), s.Avail(), b01(s.IsFull()))
+		return fmt.Sprintf("L%d [%s] F%s:%s B%s:%s E%s c%d a%d u%s N%s G%s R%s", n, strings.Join(idx, " "), Short(fv), b01(fok), Short(bv), b01(bok),
+			b01(s.IsEmpty()), s.Cap(), s.Avail(), b01(s.IsFull()), b01(s.CanNest()), b01(s.IsNesting()), errClass(s.Err()))
 	})
 }
 
@@ -274,6 +278,32 @@ func applyOp(s stackage.Stack, op string) string {
 		case "fwd":
 			s.SetForwardIndices(t[1] == "1")
 			return "-"
+		case "nnest":
+			s.SetNoNesting(t[1] == "1")
+			return "-"
+		case "ro":
+			s.SetReadOnly(t[1] == "1")
+			return "-"
+		case "ppol":
+			s.SetPushPolicy(pushPolicy(atoi64(t[1])))
+			return "-"
+		case "clrerr":
+			s.SetErr(nil)
+			return "-"
+		case "xferto": // <source stack> transferred into the root
+			x, _ := parseV(t[1:])
+			src := BuildStack(x)
+			ok := src.Transfer(s)
+			return b01(ok) + " src{" + obsStack(src) + "}"
+		case "xfer": // the root transferred into <dest value>
+			x, _ := parseV(t[1:])
+			dest := Build(x)
+			ok := s.Transfer(dest)
+			d := "-"
+			if ds, isS := stackage.ConvertStack(dest); isS {
+				d = obsStack(ds)
+			}
+			return b01(ok) + " dst{" + d + "}"
 		}
 		panic("bad op " + t[0])
 	})
@@ -293,4 +323,198 @@ func runHist(payload string) string {
 		outs = append(outs, ret+" "+obsStack(s))
 	}
 	return strings.Join(outs, " ; ")
+}
+
+func kinds(r *rand.Rand) int { return []int{1, 2, 3, 4, 6}[r.Intn(5)] }
+
+func genStackLit(r *rand.Rand, c Cfg, n int, nilOK bool) V {
+	st := V{T: 'K', Form: "n", Cfg: c}
+	for i := 0; i < n; i++ {
+		if nilOK {
+			st.Xs = append(st.Xs, genElem(r))
+		} else {
+			st.Xs = append(st.Xs, genLeaf(r))
+		}
+	}
+	return st
+}
+
+// capx (C03): growth and shrinkage around the capacity boundary
+func genCapx(r *rand.Rand, id string, tier string) string {
+	nextLeaf = 0
+	k := 1 + r.Intn(6)
+	c := Cfg{Kind: kinds(r), Cap: k, Fifo: r.Intn(3) == 0}
+	if r.Intn(8) == 0 {
+		c.Cap = 0
+	}
+	n0 := r.Intn(k + 1)
+	if c.Cap == 0 {
+		n0 = r.Intn(4)
+	}
+	st := genStackLit(r, c, n0, true)
+	maxOps := 10
+	if tier == "thorough" {
+		maxOps = 40
+	}
+	var ops []string
+	for i, nops := 0, 1+r.Intn(maxOps); i < nops; i++ {
+		switch r.Intn(12) {
+		case 0, 1, 2, 3:
+			m := r.Intn(k + 2)
+			var vs []string
+			for j := 0; j < m; j++ {
+				vs = append(vs, genElem(r).String())
+			}
+			ops = append(ops, strings.TrimSpace("push "+strings.Join(vs, " ")))
+		case 4, 5:
+			ops = append(ops, fmt.Sprintf("ins %s %d", genLeaf(r), int64(r.Intn(k+3)-1)))
+		case 6:
+			ops = append(ops, "pop")
+		case 7:
+			ops = append(ops, fmt.Sprintf("rem %d", r.Intn(k+1)))
+		case 8, 9:
+			src := genStackLit(r, Cfg{Kind: kinds(r), Fifo: r.Intn(2) == 0}, r.Intn(k+2), true)
+			ops = append(ops, "xferto "+src.String())
+		case 10:
+			if r.Intn(3) == 0 {
+				ops = append(ops, "reset")
+			} else {
+				ops = append(ops, "pop")
+			}
+		case 11:
+			ops = append(ops, "rev")
+		}
+	}
+	return st.String() + " | " + strings.Join(ops, " ; ")
+}
+
+func genNestVal(r *rand.Rand) V {
+	nextLeaf++
+	switch r.Intn(9) {
+	case 0:
+		return V{T: 'K', Form: "n", Cfg: Cfg{Kind: kinds(r)}}
+	case 1:
+		return V{T: 'K', Form: "a", Cfg: Cfg{Kind: kinds(r)}, Xs: []V{{T: 'i', I: 7}}}
+	case 2:
+		return V{T: 'K', Form: "p", Cfg: Cfg{Kind: kinds(r)}}
+	case 3:
+		return V{T: 'K', Form: "as", Cfg: Cfg{Kind: kinds(r)}}
+	case 4:
+		return V{T: 'C', Form: "n", Kw: "k", Op: "c1", Xs: []V{{T: 'i', I: int64(nextLeaf)}}}
+	case 5:
+		return V{T: 'N'}
+	case 6:
+		return V{T: 'Z', Form: []string{"n", "a", "p"}[r.Intn(3)]}
+	default:
+		return V{T: 'i', I: int64(nextLeaf)}
+	}
+}
+
+// nest (C13): push batches mixing stacks, aliases, pointers, conditions and primitives, with the option switched on and off
+func genNest(r *rand.Rand, id string, tier string) string {
+	nextLeaf = 0
+	c := Cfg{Kind: kinds(r)}
+	if r.Intn(2) == 0 {
+		c.Opt |= fNNest
+	}
+	if r.Intn(4) == 0 {
+		c.Cap = 2 + r.Intn(5)
+	}
+	st := V{T: 'K', Form: "n", Cfg: c}
+	for i, n := 0, r.Intn(3); i < n; i++ {
+		st.Xs = append(st.Xs, genNestVal(r))
+	}
+	var ops []string
+	for i, nops := 0, 1+r.Intn(8); i < nops; i++ {
+		switch r.Intn(6) {
+		case 0:
+			ops = append(ops, fmt.Sprintf("nnest %d", r.Intn(2)))
+		case 1:
+			ops = append(ops, "pop")
+		default:
+			var vs []string
+			for j, m := 0, r.Intn(5); j < m; j++ {
+				vs = append(vs, genNestVal(r).String())
+			}
+			ops = append(ops, strings.TrimSpace("push "+strings.Join(vs, " ")))
+		}
+	}
+	return st.String() + " | " + strings.Join(ops, " ; ")
+}
+
+// pol (C14, push part): batches against push policies, with and without capacity
+func genPol(r *rand.Rand, id string, tier string) string {
+	nextLeaf = 0
+	c := Cfg{Kind: kinds(r), Ppf: 1 + r.Intn(5)}
+	if r.Intn(2) == 0 {
+		c.Cap = 1 + r.Intn(6)
+	}
+	if r.Intn(5) == 0 {
+		c.Opt |= fNNest
+	}
+	st := V{T: 'K', Form: "n", Cfg: c}
+	var ops []string
+	for i, nops := 0, 1+r.Intn(6); i < nops; i++ {
+		switch r.Intn(8) {
+		case 0:
+			ops = append(ops, fmt.Sprintf("ppol %d", r.Intn(6)))
+		case 1:
+			ops = append(ops, "clrerr")
+		case 2:
+			ops = append(ops, "pop")
+		default:
+			var vs []string
+			for j, m := 0, r.Intn(6); j < m; j++ {
+				var v V
+				switch r.Intn(5) {
+				case 0:
+					v = V{T: 'N'}
+				case 1:
+					nextLeaf++
+					v = V{T: 's', S: fmt.Sprintf("s%d", nextLeaf)}
+				case 2:
+					v = V{T: 'K', Form: "n", Cfg: Cfg{Kind: 4}}
+				default:
+					v = V{T: 'i', I: int64(r.Intn(10))}
+				}
+				vs = append(vs, v.String())
+			}
+			ops = append(ops, strings.TrimSpace("push "+strings.Join(vs, " ")))
+		}
+	}
+	return st.String() + " | " + strings.Join(ops, " ; ")
+}
+
+// xfer (C15): the whole (|src|, |dst|, capacity, destination form) grid, sampled
+func genXfer(r *rand.Rand, id string, tier string) string {
+	nextLeaf = 0
+	src := genStackLit(r, Cfg{Kind: kinds(r), Fifo: r.Intn(2) == 0}, r.Intn(6), true)
+	dc := Cfg{Kind: kinds(r)}
+	if r.Intn(3) != 0 {
+		dc.Cap = 1 + r.Intn(6)
+	}
+	nd := r.Intn(6)
+	if dc.Cap != 0 && nd > dc.Cap {
+		nd = dc.Cap
+	}
+	var dest V
+	switch r.Intn(9) {
+	case 0:
+		dest = V{T: 'Z', Form: []string{"n", "a", "p"}[r.Intn(3)]}
+	case 1:
+		dest = []V{{T: 'i', I: 5}, {T: 'N'}, {T: 's', S: "x"}, {T: 'C', Form: "n", Kw: "k", Op: "c1", Xs: []V{{T: 'i', I: 1}}}, {T: 'o', Ty: 3, ID: 1}}[r.Intn(5)]
+	case 2:
+		dc.Opt |= fRO
+		dest = genStackLit(r, dc, nd, true)
+	default:
+		if r.Intn(6) == 0 {
+			dc.Ppf = 1 + r.Intn(5)
+		}
+		if r.Intn(6) == 0 {
+			dc.Opt |= fNNest
+		}
+		dest = genStackLit(r, dc, nd, true)
+		dest.Form = []string{"n", "n", "a", "as", "p"}[r.Intn(5)]
+	}
+	return src.String() + " | xfer " + dest.String()
 }
